@@ -63,6 +63,9 @@ instance : PPOps Float where
   exp := Float.exp
   sqrt := Float.sqrt
   cbrt := Float.cbrt
+  sin := Float.sin
+  atan2 := Float.atan2
+  r32 x := x.toFloat32.toFloat
   pi := Float.ofBits 0x400921FB54442D18
   posInf := fInf
   negInf := fNegInf
